@@ -75,6 +75,7 @@ theorem inert_block_cb (st : PState) (block : List Item) (h : ∀ it ∈ block, 
     | comment ind c t => rfl
     | sect _ _ _ _ => cases hi
     | entry _ => cases hi
+    | keyonly _ _ _ _ => cases hi
 
 /-- no comment line is pending behind an entry item -/
 theorem entry_clears_cb (cfg : Cfg) (st : PState) (e : EntryI) (h : e.WF cfg) : (expItem st (.entry e)).cb = none := by
